@@ -856,6 +856,8 @@ pub fn write_history(ctx: &Ctx, revisions: &[Revision], opts: &WriterOpts) -> Wr
         let mut plain: Vec<((u32, u16), MObj)> = Vec::new();
         let mut members: Vec<(u32, MObj)> = Vec::new();
         let mut len_pairs: Vec<(u32, u32)> = Vec::new(); // (stream number, Length object number)
+        // Length objects handed out in this revision, by value: streams of equal length may share one
+        let mut length_objs: BTreeMap<usize, u32> = BTreeMap::new();
         for (id, o) in &rev.objects {
             let mut o = o.clone();
             max_num = max_num.max(id.0);
@@ -863,8 +865,13 @@ pub fn write_history(ctx: &Ctx, revisions: &[Revision], opts: &WriterOpts) -> Wr
                 dict_set(d, b"Length", int(body.len() as u64));
                 let indirect = e.p([0, 200, 500], "length-indirect");
                 let in_objstm = indirect && can_compress && e.p([0, 300, 400], "length-in-objstm");
-                if indirect && avoid & AVOID_INDIRECT_LENGTH == 0 {
+                if indirect && avoid & AVOID_INDIRECT_LENGTH == 0 && length_objs.contains_key(&body.len()) && e.d(2, "length-shared") == 1 {
+                    // several streams may refer to one integer object for their (equal) lengths
+                    ctx.count("length-object-shared");
+                    dict_set(d, b"Length", MObj::Ref(length_objs[&body.len()], 0));
+                } else if indirect && avoid & AVOID_INDIRECT_LENGTH == 0 {
                     let n = next_id;
+                    length_objs.insert(body.len(), n);
                     next_id += 1;
                     max_num = max_num.max(n);
                     dict_set(d, b"Length", MObj::Ref(n, 0));
